@@ -44,9 +44,13 @@ CHECKS = {
     "C01": {
         "title": "point operations are linearizable",
         "quick": [run("conc_lin_plain", "conc-plain", mode="lin", prop="C01", rounds=6000, repeat=2),
-                  run("conc_lin_asan", "conc-asan", mode="lin", prop="C01", rounds=1200)],
+                  run("conc_lin_asan", "conc-asan", mode="lin", prop="C01", rounds=1200),
+                  run("conc_lin_micro", "conc-plain", mode="lin_micro", prop="C01", races=500000, repeat=2),
+                  run("conc_lin_micro_asan", "conc-asan", mode="lin_micro", prop="C01", races=60000)],
         "thorough": [run("conc_lin_plain", "conc-plain", mode="lin", prop="C01", rounds=400000, repeat=6, timeout=3400),
-                     run("conc_lin_asan", "conc-asan", mode="lin", prop="C01", rounds=60000, repeat=2, timeout=3400)],
+                     run("conc_lin_asan", "conc-asan", mode="lin", prop="C01", rounds=60000, repeat=2, timeout=3400),
+                     run("conc_lin_micro", "conc-plain", mode="lin_micro", prop="C01", races=40000000, repeat=6, timeout=3400),
+                     run("conc_lin_micro_asan", "conc-asan", mode="lin_micro", prop="C01", races=4000000, repeat=2, timeout=3400)],
         "parallel": {"quick": 1, "thorough": 2},
     },
     "C02": {
